@@ -7,13 +7,30 @@ From Verif Require Import DyFloat Columns C36_proofs.
 Import ListNotations.
 Local Open Scope Z_scope.
 
-(* For every column class (containers nested to any depth) and every valid Python value: to_database succeeds and
-   the database-ready value denotes, under the column's CQL type, exactly the CQL value that cassandra.cqltypes
-   serialisation encodes for the original Python value.  (VSet/VMap lists are read as sets; equal lists = equal sets.) *)
+(* For every column class (containers nested to any depth) and every valid Python value: to_database succeeds; the
+   database-ready value denotes, under the column's CQL type, exactly the CQL value that cassandra.cqltypes serialisation
+   encodes for the original Python value; and so does the CQL LITERAL the Encoder renders for it (what is actually sent),
+   read as a literal of the column's type.  (VSet/VMap lists are read as sets; equal lists = equal sets.) *)
 Theorem C36_same_value : forall (c : col) (v : pyval), valid c v = true ->
-  exists x a, to_database c v = Some x /\ denote (cql_type c) x = Some a /\ prepared_value (cql_type c) v = Some a.
+  exists x a l, to_database c v = Some x /\ denote (cql_type c) x = Some a /\ prepared_value (cql_type c) v = Some a /\
+                encode_literal x = Some l /\ lit_value (cql_type c) l = Some a.
 Proof. exact same_value_all. Qed.
 Print Assumptions C36_same_value.
+
+(* Sending the same Python object any number of times: to_database never writes its argument (UserDefinedType converts
+   the fields of a deep copy), so every send of the history denotes the value the core driver encodes. *)
+Theorem C36_resend : forall (c : col) (v : pyval) (n : nat) (x : option pyval), valid c v = true ->
+  In x (send_history c v n) ->
+  exists y a l, x = Some y /\ denote (cql_type c) y = Some a /\ prepared_value (cql_type c) v = Some a /\
+                encode_literal y = Some l /\ lit_value (cql_type c) l = Some a.
+Proof. exact resend_all. Qed.
+Print Assumptions C36_resend.
+
+(* the literal of a Duration carries ONE sign: a days-only negative duration keeps it *)
+Example C36_duration_literal :
+  encode_literal (PDuration 0 (-3) 0) = Some (LDuration true 0 3 0) /\
+  lit_value TDuration (LDuration true 0 3 0) = Some (VDuration 0 (-3) 0).
+Proof. split; reflexivity. Qed.
 
 (* A datetime is stored as its exact millisecond instant: naive = UTC wall clock, aware = wall clock minus the zone's
    offset AT THAT VALUE (any offset function: DST included).  Digits below one millisecond are dropped toward zero. *)
@@ -33,6 +50,17 @@ Theorem C36_datetime_naive_is_utc : forall wall k, wall = 1000 * k ->
   to_database CDateTime (PDatetime wall None) = Some (PInt k).
 Proof. intros wall k H. cbn [to_database]. rewrite (datetime_exact wall None k); [reflexivity|]. cbn [tz_off]. rewrite H. apply Z.sub_0_r. Qed.
 Print Assumptions C36_datetime_naive_is_utc.
+
+(* OPEN finding C36-5 (core driver, cassandra/cqltypes.py DateType.serialize): the full statement "the core float
+   expression sends the instant truncated toward zero, as cqlengine does, for EVERY datetime" is false far from the epoch;
+   C36_same_value is the partial theorem (`valid` admits sub-millisecond datetimes only within 2^44 ms of the epoch). *)
+Definition C36_full_statement : Prop := forall (wall : Z) (tz : option (Z -> Z)),
+  core_datetime_ms_float wall tz = datetime_to_db wall tz.
+
+(* 9000-01-01T00:00:00.000999 (naive): cqlengine sends 221845392000000, the core float path 221845392000001 *)
+Theorem C36_core_float_refuted : ~ C36_full_statement.
+Proof. intros H. specialize (H 221845392000000999 None). vm_compute in H. discriminate H. Qed.
+Print Assumptions C36_core_float_refuted.
 
 (* The statement the code BEFORE the repair had to meet, and its refutations (the witnesses are replayed on the real
    column by checks/C36.py from corpus/C36): float truncation, and the UTC offset taken at the 1970 epoch. *)
